@@ -226,3 +226,29 @@ C("c12-b32-bytes", "C12", BIN, '    if isinstance(source, str):\n        source 
 C("c12-libpass-copy", "C12", "libpass/_utils/binary.py", "        yield ((v2 & 0x0F) << 2) | (v1 >> 6)\n        yield ((v3 & 0x03) << 4) | (v2 >> 4)\n        yield v3 >> 2\n        idx += 1", "        yield ((v2 & 0x0F) << 2) | (v1 >> 6)\n        yield ((v3 & 0x03) << 4) | (v2 >> 4)\n        yield v3 >> 3\n        idx += 1", "C12")
 C("c12-endian-swap", "C12", BIN, "            self._encode_bytes = self._encode_bytes_big\n            self._decode_bytes = self._decode_bytes_big", "            self._encode_bytes = self._encode_bytes_big\n            self._decode_bytes = self._decode_bytes_little", "C12.c")
 C("c12-bcrypt64", "C12", BIN, "bcrypt64 = LazyBase64Engine(BCRYPT_CHARS, big=True)", "bcrypt64 = LazyBase64Engine(BCRYPT_CHARS)", "C12.e")
+
+# ---- C11
+BFB = "passlib/crypto/_blowfish/base.py"
+MD4F = "passlib/crypto/_md4.py"
+SALF = "passlib/crypto/scrypt/_salsa.py"
+DESF = "passlib/crypto/des.py"
+C("c11-bf-P", "C11", BFB, "0x243F6A88", "0x243F6A89", "C11.a")
+C("c11-bf-S", "C11", BFB, "0x3AC372E6", "0x3AC372E7", "C11.a")
+C("c11-bf-cdata", "C11", "passlib/crypto/_blowfish/__init__.py", "0x4F727068", "0x4F727069", "C11.a")
+C("c11-bf-64", "C11", "passlib/crypto/_blowfish/__init__.py", "engine.repeat_encipher(data[i], data[i + 1], 64)", "engine.repeat_encipher(data[i], data[i + 1], 63)", "C11.a")
+C("c11-md4-shift", "C11", MD4F, "        [3, 0, 1, 2, 5, 7],\n        [2, 3, 0, 1, 6, 11],", "        [3, 0, 1, 2, 5, 7],\n        [2, 3, 0, 1, 6, 13],", "C11.c")
+C("c11-md4-const", "C11", MD4F, "0x5A827999", "0x5A827998", "C11.c")
+C("c11-md4-copy", "C11", MD4F, "        other._count = self._count\n", "", "C11.c")
+C("c11-md4-pad", "C11", MD4F, "((119 - len(buf)) % 64)", "((120 - len(buf)) % 64)", "C11.c")
+C("c11-md4-restore", "C11", MD4F, "        out = struct.pack(\"<4I\", *self._state)\n        self._state = orig\n", "        out = struct.pack(\"<4I\", *self._state)\n", "C11.c")
+C("c11-salsa-rot", "C11", SALF, "        v15 ^= ((t & 0x00003FFF) << 18) | (t >> 14)\n        i += 1", "        v15 ^= ((t & 0x00003FFF) << 18) | (t >> 13)\n        i += 1", "C11.d")
+C("c11-salsa-rounds", "C11", SALF, "    while i < 4:", "    while i < 5:", "C11.d")
+C("c11-scrypt-sizes", "C11", "passlib/crypto/scrypt/_builtin.py", "self.bmix_half_len = r << 4", "self.bmix_half_len = r << 3", "C11.d")
+C("c11-scrypt-validate", "C11", "passlib/crypto/scrypt/__init__.py", "    if n < 2 or n & (n - 1):", "    if n < 2 or n & (n + 1):", "C11.d")
+C("c11-des-lane", "C11", DESF, "            k = ((L >> 32) ^ L) & salt", "            k = ((L >> 31) ^ L) & salt", "C11.b")
+C("c11-des-salt", "C11", DESF, "        | ((salt & 0x000FC0) << 12)", "        | ((salt & 0x000FC0) << 11)", "C11.b")
+C("c11-des-expand", "C11", DESF, "_EXPAND_ITER = range(49, -7, -7)", "_EXPAND_ITER = range(49, 0, -7)", "C11.b")
+C("c11-sasl-raw", "C11", U, "    if is_ral_char(data[0]):\n        if not is_ral_char(data[-1]):", "    if is_ral_char(source[0]):\n        if not is_ral_char(source[-1]):", "C11.e")
+C("c11-sasl-table", "C11", U, '        (stringprep.in_table_c3, "private use characters forbidden in "),\n', "", "C11.e")
+C("c11-hmac", "C11", DIG, "    if klen > block_size:\n        key = const(key).digest()", "    if klen >= block_size:\n        key = const(key).digest()", "C11.f")
+C("c11-pbkdf1", "C11", DIG, "    for _ in range(rounds):\n        block = const(block).digest()", "    for _ in range(rounds - 1):\n        block = const(block).digest()", "C11.f")
